@@ -46,12 +46,16 @@ class Reader(flodym.DataReader):
 def render_name(n):
     kind = n[0]
     if kind == "given":
-        return n[1]
+        return "" if n[1] == "<empty>" else n[1]
     if kind == "arrow":
         return f"{n[1]} => {n[2]}"
     if kind == "no_spaces":
         return f"{n[1].replace(' ', '_')}_to_{n[2].replace(' ', '_')}"
     return f"F{n[1]}_{n[2]}"
+
+
+def override_of(f):
+    return "" if f["override"] == "<empty>" else (f["override"] or None)
 
 
 def make_definition(d, spelling="long"):
@@ -60,15 +64,15 @@ def make_definition(d, spelling="long"):
     if spelling == "long":
         dims = [flodym.DimensionDefinition(name=NAMES[l], letter=l, dtype=DTYPES[l]) for l in ("t", "r", "e")]
         flows = [flodym.FlowDefinition(from_process_name=f["from"], to_process_name=f["to"], dim_letters=tuple(f["dims"]),
-                                       name_override=(f["override"] or None)) for f in d["flows"]]
+                                       name_override=override_of(f)) for f in d["flows"]]
     elif spelling == "alias":
         dims = [flodym.DimensionDefinition(name=NAMES[l], dim_letter=l, dtype=DTYPES[l]) for l in ("t", "r", "e")]
         flows = [flodym.FlowDefinition(from_process=f["from"], to_process=f["to"], dim_letters=tuple(f["dims"]),
-                                       name_override=(f["override"] or None)) for f in d["flows"]]
+                                       name_override=override_of(f)) for f in d["flows"]]
     else:
         dims = [dict(name=NAMES[l], dim_letter=l, dtype=DTYPES[l]) for l in ("t", "r", "e")]
         flows = [dict(from_process=f["from"], to_process=f["to"], dim_letters=tuple(f["dims"]),
-                      name_override=(f["override"] or None)) for f in d["flows"]]
+                      name_override=override_of(f)) for f in d["flows"]]
     stocks = []
     for s in d["stocks"]:
         kw = dict(name=s["name"], dim_letters=tuple(s["dims"]), subclass=stock_class(s["cls"]), solver=s["solver"],
